@@ -727,7 +727,66 @@ func buffersStartEmpty(c *Ctx, r *Report, rule string, fns ...*ssa.Function) {
 				fmt.Sprintf("%s appends to a buffer obtained from %s that is not known to be empty (no Reset dominates the write at %s): whatever an earlier use left in it - e.g. the octets of a file whose write failed and returned early - precedes the octets of this file, and every offset of the format is shifted", shortFn(f), origin, bad))
 		}
 		if n == 0 {
-			r.info(rule, fnKey(f)+"|no buffer", c.rel(f.Pos()), "the encoder does not assemble its octets in a bytes.Buffer")
+			// assembled by append: the slice every return hands out must grow from an empty one
+			var rootEmpty func(v ssa.Value, depth int) bool
+			rootEmpty = func(v ssa.Value, depth int) bool {
+				if depth > 64 {
+					return false
+				}
+				switch x := v.(type) {
+				case *ssa.MakeSlice:
+					k, ok := constInt(x.Len)
+					return ok && k == 0
+				case *ssa.Const:
+					return x.Value == nil
+				case *ssa.Slice:
+					if x.High != nil && x.Low == nil {
+						k, ok := constInt(x.High)
+						return ok && k == 0
+					}
+				case *ssa.Phi:
+					for _, e := range x.Edges {
+						if !rootEmpty(e, depth+1) {
+							return false
+						}
+					}
+					return len(x.Edges) > 0
+				case *ssa.Call:
+					if b, ok := x.Call.Value.(*ssa.Builtin); ok && b.Name() == "append" {
+						return rootEmpty(x.Call.Args[0], depth+1)
+					}
+					if o := calleeObj(&x.Call); o != nil && o.Pkg() != nil && o.Pkg().Path() == "encoding/binary" && strings.HasPrefix(o.Name(), "Append") && len(x.Call.Args) >= 2 {
+						return rootEmpty(x.Call.Args[1], depth+1)
+					}
+				}
+				return false
+			}
+			all, some := true, false
+			for _, ri := range returnsOf(f) {
+				for _, v := range ri.Vals {
+					if sl, ok := v.Type().Underlying().(*types.Slice); ok && sizeOfBasic(sl.Elem()) == 1 {
+						some = true
+						if !rootEmpty(v, 0) {
+							all = false
+						}
+					}
+				}
+			}
+			appended := false
+			eachInstr(f, func(_ *ssa.BasicBlock, _ int, ins ssa.Instruction) {
+				if call, ok := ins.(*ssa.Call); ok {
+					if b, ok := call.Call.Value.(*ssa.Builtin); ok && b.Name() == "append" {
+						appended = true
+					}
+				}
+			})
+			if some && all {
+				r.proven(rule, fnKey(f)+"|appended slice", c.rel(f.Pos()), "the octets are appended to a slice that starts empty (make with length 0 / nil) on every path to a return")
+			} else if some && appended {
+				r.viol(rule, fnKey(f)+"|appended slice", c.rel(f.Pos()), shortFn(f)+" assembles its octets by append, but the slice appended to is not known to start empty (not make(.., 0, ..), nil or s[:0]): whatever it already holds precedes the encoded octets and every offset of the format is shifted")
+			} else {
+				r.info(rule, fnKey(f)+"|no buffer", c.rel(f.Pos()), "the encoder does not assemble its octets in a bytes.Buffer")
+			}
 		}
 	}
 }
